@@ -277,6 +277,10 @@ def step (s : St) (toks : List String) : IO (St × Bool) := do
             fin ([.createBegin a j o.named] ++ needKey m t 0 ++ [.createEnd a, .start t]) "create"
           else fin [.createBegin a j o.named, .createEnd a] "create"
       | ["start"] => fin (needKey m a 0 ++ [.start a]) "none"
+      | ["start", "fail2"] =>
+        -- both lazy `pthread_key_create` calls of the proxy (store, read-back) fail: nothing is stored, `is_stored == FALSE`
+        if (m.key 0).published.isSome ∨ (m.key 0).wrapperFreed ∨ s.pend.any (·.k = 0) then bad
+        else fin [.startUnstored a] "none" (status := "kcfail,kcfail")
       | ["set", k, v] =>
         match k.toNat?, v.toNat? with
         | some k, some v => fin (needKey m a k ++ [.setLocal a k v]) "none"
@@ -317,7 +321,10 @@ def step (s : St) (toks : List String) : IO (St × Bool) := do
           | none =>   -- a thread the library did not create: the harness calls `current` (to learn the block), then `exit`, which returns
             fin (needKey m a 0 ++ [.current a, .exit a c]) "noexit"
         | none => bad
-      | ["return"] => fin [.ret a] "none"
+      | ["return"] =>
+        match (m.thr a).proxy with
+        | some h => fin [.retUnstored a h] "none"      -- the proxy drops the thread's reference itself
+        | none => fin [.ret a] "none"
       | ["end"] => fin [.threadEnd a] "none"
       | ["ref", h] =>
         match h.toNat? with
